@@ -273,9 +273,14 @@ def has_kind(t, k):
     return t[0] == k or any(has_kind(c, k) for c in T.children(t))
 
 
+BETWEEN_UNALIAS = False     # set from the regenerated facts: between takes its bounds with .column_expression
+
+
 def alias_kept(t):
     """positions where sqlframe takes `.expression` (an Alias node survives): outside the modelled fragment"""
     out = []
+    if BETWEEN_UNALIAS:
+        return out
     k = t[0]
     AL = ("alias", "when")      # F.when(...) results carry an automatic alias (the @meta decorator)
     if k == "between":
@@ -330,8 +335,16 @@ def make_trees(ctx):
         ty = rnd.choice(["bool", "bool", "bool", "int", "str", "num"])
         d = rnd.choice([2, 3, 3, 4, 4]) if ctx.tier == "quick" else rnd.choice([2, 3, 4, 4, 5])
         rand.append(g.gen(ty, d))
+    # witnesses of known and of repaired findings stay in the corpus that runs first
+    corpus = list(CORPUS)
+    import glob
+    for f in sorted(glob.glob(os.path.join(core.VERIF, "findings", "C05-*.json"))):
+        try:
+            corpus.append(T.from_json(json.load(open(f))["replay"]["tree"]))
+        except Exception:
+            pass
     seen, out = set(), []
-    for src, ts in (("corpus", CORPUS), ("exhaustive", exh), ("random", rand)):
+    for src, ts in (("corpus", corpus), ("exhaustive", exh), ("random", rand)):
         for t in ts:
             k = repr(t)
             if k not in seen and not double_cast(t):
@@ -419,6 +432,8 @@ def run(ctx: core.Ctx):
     try:
         text, facts = c05_facts.generate(core.REPO)
         ctx.gen("C05Facts", text, facts)
+        global BETWEEN_UNALIAS
+        BETWEEN_UNALIAS = any(f.get("name") == "between_unalias" and f.get("value") for f in facts)
     except Exception as ex:
         ctx.broken("T1:c05_facts", f"{type(ex).__name__}: {ex}")
         t1_ok = False
